@@ -81,14 +81,31 @@ func findSeparatorSites(c *Ctx, prefixes ...string) []sepSite {
 				if !isW || len(ce.Args) != 1 {
 					return true
 				}
-				// the argument is a constant or a plain identifier (a separator), not a computed element
+				// the argument is a list separator: the array separator constant, a comma, or a
+				// delimiter parameter of the enclosing function (not something derived from the loop element)
 				arg := ast.Unparen(ce.Args[0])
-				if _, isConst := info.Types[arg]; !(isConst && info.Types[arg].Value != nil) {
-					if _, isId := arg.(*ast.Ident); !isId {
-						if se, isSel := arg.(*ast.SelectorExpr); !isSel || info.Types[se].Value == nil {
-							return true
-						}
+				isSep := false
+				if tv, ok := info.Types[arg]; ok && tv.Value != nil {
+					v := tv.Value.ExactString()
+					switch v {
+					case "0", `"\x00"`, `","`, `", "`, "44":
+						isSep = true
 					}
+				} else if id, isId := arg.(*ast.Ident); isId {
+					if o, isVar := info.Uses[id].(*types.Var); isVar && !within(lp, o.Pos()) {
+						// a parameter of the function or of an enclosing literal
+						isParam := false
+						ast.Inspect(fi.Decl, func(m ast.Node) bool {
+							if ft, ok := m.(*ast.FuncType); ok && ft.Params != nil && within(ft.Params, o.Pos()) {
+								isParam = true
+							}
+							return true
+						})
+						isSep = isParam
+					}
+				}
+				if !isSep {
+					return true
 				}
 				// the loop writes elements to the same writer elsewhere
 				others := 0
@@ -169,6 +186,46 @@ func judgeSeparator(c *Ctx, fi *FuncInfo, lp ast.Stmt, body *ast.BlockStmt, is *
 		if be, ok := ast.Unparen(t.Cond).(*ast.BinaryExpr); ok && t.Cond != nil {
 			if identObj(info, be.X) == iv && be.Op == token.LSS {
 				bound = be.Y
+			}
+		}
+	}
+	if fs, isFor := lp.(*ast.ForStmt); isFor && fs.Init == nil && iv == nil {
+		// `v := K` before the loop, `v++` as a top-level statement of the body after the element writes
+		if be, ok := ast.Unparen(is.Cond).(*ast.BinaryExpr); ok {
+			if cand := identObj(info, be.X); cand != nil {
+				vi := analyseVars(info, fi.Decl)
+				pr := &prover{info: info, vi: vi, body: fi.Decl.Body}
+				pr.collectAssigns()
+				okShape, k := true, int64(0)
+				nInit, nInc := 0, 0
+				for _, a := range pr.assigns[cand] {
+					switch a.kind {
+					case "assign":
+						if v, isC := constInt(info, a.rhs); isC && !within(lp, a.pos) {
+							k = v
+							nInit++
+						} else {
+							okShape = false
+						}
+					case "inc":
+						if within(lp, a.pos) {
+							nInc++
+						} else {
+							okShape = false
+						}
+					default:
+						okShape = false
+					}
+				}
+				incTop := false
+				for _, st := range body.List {
+					if id, ok := st.(*ast.IncDecStmt); ok && identObj(info, id.X) == cand && id.Tok == token.INC {
+						incTop = true
+					}
+				}
+				if okShape && nInit == 1 && nInc == 1 && incTop {
+					iv, start, startKnown = cand, k, true
+				}
 			}
 		}
 	}
@@ -263,7 +320,7 @@ func judgeSeparator(c *Ctx, fi *FuncInfo, lp ast.Stmt, body *ast.BlockStmt, is *
 				fg := NewFGraph(bodyBlk, info)
 				fg.SolveFacts(vi)
 				pr := &prover{info: info, vi: vi, fg: fg, body: bodyBlk}
-				if pr.proveAtLeast(S, fg.FactsAtPos(is.Pos()), start) {
+				if pr.proveAtLeast(S, fg.FactsAtPos(is.Cond.Pos()), start) {
 					return true, "position: first emitted element is at index " + exprStr(S) + " >= loop start"
 				}
 				return false, "the separator is written for every index above " + exprStr(S) + ", which is not known to be >= " + fmt.Sprint(start) + " (the first index of the loop): when it is smaller, the first element emitted is preceded by a separator (e.g. a negative slice start beyond the list length)"
